@@ -1,11 +1,21 @@
 (** C15 — Proxy mode forwards exactly the rewritten request with pipeline headers
-    winning.  Property theorems only; proofs are in C15/Proofs.v, the model in
-    C15/Model.v + C15/Rewrite.v, the vocabulary of the statements in C15/Spec.v.
+    winning.  Property theorems only; proofs are in C15/Proofs.v, MainProof.v,
+    QueryLemmas.v; the model in C15/Model.v + C15/Rewrite.v; the vocabulary of the
+    statements in C15/Spec.v.
 
     [serve fx q pl r] is the whole way of one request: bytes the client sends
     ([q]), what the pipeline handed over ([pl]), the rule's forward_to and
     allow_encoded_slashes ([r]) -> what the upstream receives.  [execute] is
-    ruleImpl.Execute + Backend.CreateURL on the request view [u]. *)
+    ruleImpl.Execute + Backend.CreateURL on the request view [u];
+    [rewrite_request] is what heimdall hands to its HTTP client.  [fx] says which
+    repairs the modelled tree contains ([repaired] = /repo as it is, [repaired2] =
+    with fixes/C15-F6.diff and fixes/C15-F7.diff).
+
+    Clauses that are definitions of the model rather than theorems (the body is
+    passed through, the method is the view's, scheme / Host line / request line
+    are assembled as Rewrite.v says) are not listed here; they are covered by
+    [C15_spec_holds] against the independent predicate [spec_ok] and by the
+    correspondence streams. *)
 From HV Require Import Base.Prelude Base.GoUrl C15.UrlLemmas C15.QueryLemmas C15.Model C15.Spec C15.Proofs C15.MainProof.
 
 Local Open Scope string_scope.
@@ -17,15 +27,8 @@ Theorem C15_view_wellformed : forall q u,
 Proof. exact view_url_wf. Qed.
 Print Assumptions C15_view_wellformed.
 
-(** ... and, without a trusted X-Forwarded-Uri, it is the path of the request target byte for byte *)
-Theorem C15_view_is_request_path : forall q u,
-  view_url q = Some u -> h_get "X-Forwarded-Uri" (in_headers q) = "" ->
-  valid_encoded (q_raw q) = true -> u_rawpath u = q_raw q.
-Proof. exact view_url_rawpath. Qed.
-Print Assumptions C15_view_is_request_path.
-
 (** path: strip prefix then add prefix, every other byte — in particular every
-    percent-escape — as it was (`off`, `no_decode`; for `on` see C15-F3) *)
+    percent-escape — as it was (`off`, `no_decode`; for `on` see below and C15-F3) *)
 Theorem C15_wire_path_exact : forall fx r u t,
   view_wf u -> r_setting r <> On ->
   valid_encoded (cfg_add r) = true -> wellformed (cfg_add r) = true ->
@@ -45,125 +48,18 @@ Theorem C15_wire_path_on : forall fx r u t,
 Proof. exact wire_path_on_bytes. Qed.
 Print Assumptions C15_wire_path_on.
 
-(** no double encoding, for every setting and every configuration whose
-    transformed path is well-formed: what the upstream decodes is what the
-    transformed path decodes to *)
+(** no double encoding — also INSIDE the guards of C15-F3 and C15-F5: for every
+    setting and every configuration whose transformed path is well-formed, what
+    the upstream decodes is what the transformed path decodes to *)
 Theorem C15_decoded_path : forall f b u,
   match b_rw b with
   | Some rw =>
     let raw' := rw_add rw ++ strip_prefix (rw_cut rw) (escaped_path (u_path u) (u_rawpath u)) in
-    wellformed raw' = true -> unescape (wire_path (create_url_fx f b u)) = unescape raw'
-  | None => unescape (wire_path (create_url_fx f b u)) = Some (u_path u)
+    wellformed raw' = true -> unescape (wire_path (create_url_q f b u)) = unescape raw'
+  | None => unescape (wire_path (create_url_q f b u)) = Some (u_path u)
   end.
 Proof. exact decoded_path_preserved. Qed.
 Print Assumptions C15_decoded_path.
-
-(** scheme: the view's, unless the rewrite names one *)
-Theorem C15_scheme_rewritten : forall fx r u t,
-  execute fx r u = Some t -> u_scheme t = expected_scheme r u.
-Proof. exact scheme_rewritten. Qed.
-Print Assumptions C15_scheme_rewritten.
-
-(** the request target is that path ("/" if empty) and, after '?', the rewritten query *)
-Theorem C15_request_line : forall fx r u t,
-  execute fx r u = Some t ->
-  wire_uri t =
-  (if is_empty (wire_path t) then "/" else wire_path t) ++
-  (let q' := match b_rw (r_backend r) with
-             | Some rw => remove_from_fx (fx_f1 fx) (rw_strip_q rw) (u_query u)
-             | None => u_query u
-             end in
-   if is_empty q' then "" else String "?" q').
-Proof. exact request_line. Qed.
-Print Assumptions C15_request_line.
-
-(** with nothing to remove, the query is forwarded byte for byte *)
-Theorem C15_query_untouched : forall f names q, names = [] \/ q = "" -> remove_from_fx f names q = q.
-Proof. exact query_untouched. Qed.
-Print Assumptions C15_query_untouched.
-
-(** every field the upstream sees is, name by name, what the specification
-    prescribes — as the tree is now ([fx_f4 fx = false]) with the forwarded-header
-    block having the last word (C15-F4) *)
-Theorem C15_headers_name_by_name : forall fx q pl r tls m uri host hs body k,
-  serve fx q pl r = Forwarded tls m uri host hs body -> k <> "Host" ->
-  h_values k hs = expected_values (fx_c13f3 fx) (fx_f4 fx) q pl m k.
-Proof. exact serve_headers. Qed.
-Print Assumptions C15_headers_name_by_name.
-
-(** the headers the pipeline produced under a name spelling [k] in any casing
-    replace whatever the client sent under a name spelling [k] in any casing — in
-    the repaired tree ([fx_f4 fx = true]) for every name, before that for every
-    name but the forwarding headers (C15-F4) *)
-Theorem C15_pipeline_header_wins : forall fx q pl r tls m uri host hs body k,
-  serve fx q pl r = Forwarded tls m uri host hs body ->
-  let vs := pipeline_values (fx_c13f3 fx) (p_headers pl) k in
-  first_or_empty vs <> "" ->
-  k <> "Host" -> k <> "User-Agent" -> (k = "Cookie" -> p_cookies pl = []) ->
-  fx_f4 fx = true \/ forwarding_value q k = None ->
-  h_values k hs = vs.
-Proof. exact pipeline_header_wins. Qed.
-Print Assumptions C15_pipeline_header_wins.
-
-Theorem C15_pipeline_host_wins : forall fx q pl r tls m uri host hs body v,
-  serve fx q pl r = Forwarded tls m uri host hs body ->
-  pipeline_value (p_headers pl) "Host" = Some v -> v <> "" -> host = v.
-Proof. exact pipeline_host_wins. Qed.
-Print Assumptions C15_pipeline_host_wins.
-
-(** without a pipeline Host header the request goes out with Host = forward_to.host *)
-Theorem C15_host_is_forward_to : forall fx q pl r tls m uri host hs body,
-  serve fx q pl r = Forwarded tls m uri host hs body -> host = expected_host pl r.
-Proof. exact serve_host. Qed.
-Print Assumptions C15_host_is_forward_to.
-
-Theorem C15_no_forwarded_passthrough : forall fx q pl r tls m uri host hs body k,
-  serve fx q pl r = Forwarded tls m uri host hs body ->
-  never_passed k = true -> pipeline_value (p_headers pl) k = None ->
-  h_values k hs = [].
-Proof. exact no_forwarded_passthrough. Qed.
-Print Assumptions C15_no_forwarded_passthrough.
-
-Theorem C15_forwarded_extended_by_peer : forall fx q pl r tls m uri host hs body,
-  serve fx q pl r = Forwarded tls m uri host hs body ->
-  let hin := in_headers q in
-  let k := if forwarding_active hin then "X-Forwarded-For" else "Forwarded" in
-  fx_f4 fx = false \/ pipeline_values (fx_c13f3 fx) (p_headers pl) k = [] ->
-  if forwarding_active hin
-  then h_values "X-Forwarded-For" hs = [append_peer (h_get "X-Forwarded-For" hin) (q_peer q)]
-  else h_values "Forwarded" hs =
-       [append_peer (h_get "Forwarded" hin) ("for=" ++ q_peer q ++ ";host=" ++ q_host q ++ ";proto=http")].
-Proof. exact forwarded_extended_by_peer. Qed.
-Print Assumptions C15_forwarded_extended_by_peer.
-
-Theorem C15_method_body_untouched : forall fx q pl r tls m uri host hs body,
-  serve fx q pl r = Forwarded tls m uri host hs body ->
-  body = q_body q /\ m = view_method q /\ (guard_F2 q = false -> m = q_method q).
-Proof. exact method_body_untouched. Qed.
-Print Assumptions C15_method_body_untouched.
-
-(** removed query parameters: for EVERY query and every key, a removed key is
-    gone and every other key keeps its values in order (repaired tree) *)
-Theorem C15_query_only_removed : forall names q k,
-  names <> [] -> q <> EmptyString ->
-  values_get k (fst (parse_query (remove_from_fx true names q))) =
-  if mem_name k names then [] else values_get k (fst (parse_query q)).
-Proof. exact remove_from_spec. Qed.
-Print Assumptions C15_query_only_removed.
-
-(** before 41fd1db the same held only for queries that parse (C15-F1) *)
-Theorem C15_query_only_removed_pinned : forall names q k,
-  names <> [] -> q <> EmptyString -> snd (parse_query q) = false ->
-  values_get k (fst (parse_query (remove_from_fx false names q))) =
-  if mem_name k names then [] else values_get k (fst (parse_query q)).
-Proof. exact remove_from_spec_pinned. Qed.
-Print Assumptions C15_query_only_removed_pinned.
-
-(** field names in any casing: spellings that differ only in ASCII case name the same header *)
-Theorem C15_header_names_any_casing : forall n n',
-  all_chars is_tchar n = true -> fold_eq n n' = true -> canon_key n = canon_key n'.
-Proof. exact canon_key_any_casing. Qed.
-Print Assumptions C15_header_names_any_casing.
 
 (** bytes in, bytes out: without a trusted X-Forwarded-Uri, under `off` /
     `no_decode`, a valid encoded request path reaches the upstream as
@@ -178,14 +74,124 @@ Theorem C15_request_path_end_to_end : forall fx q pl r tls m uri host hs body,
 Proof. exact request_path_end_to_end. Qed.
 Print Assumptions C15_request_path_end_to_end.
 
-(** THE WHOLE STATEMENT: for every request (any bytes), every pipeline output and
-    every rule / rewrite configuration on which none of the open findings
-    C15-F2, -F3, -F5 shows, what is forwarded (or that nothing is) satisfies every
-    sentence of the property ([spec_ok], C15/Spec.v) *)
-Theorem C15_spec_holds : forall q pl r,
+(** removed query parameters, key by key: for EVERY query (parsable or not) and
+    every key, a removed key is gone and every other key keeps its values in
+    order — for a tree with the repair of C15-F1 or of C15-F6; also INSIDE the guard of C15-F6 *)
+Theorem C15_query_only_removed : forall m names q k,
+  qf1 m = true \/ qf6 m = true ->
+  names <> [] -> q <> EmptyString ->
+  values_get k (fst (parse_query (remove_from_q m names q))) =
+  if mem_name k names then [] else values_get k (fst (parse_query q)).
+Proof. exact remove_from_spec. Qed.
+Print Assumptions C15_query_only_removed.
+
+(** before 41fd1db the same held only for queries that parse (C15-F1) *)
+Theorem C15_query_only_removed_pinned : forall names q k,
+  names <> [] -> q <> EmptyString -> snd (parse_query q) = false ->
+  values_get k (fst (parse_query (remove_from_q {| qf1 := false; qf6 := false |} names q))) =
+  if mem_name k names then [] else values_get k (fst (parse_query q)).
+Proof. exact remove_from_spec_pinned. Qed.
+Print Assumptions C15_query_only_removed_pinned.
+
+(** "query changed ONLY by the removed parameters", byte for byte: the settings
+    naming a parameter to remove are gone, every other setting is there as it came,
+    in the original order — with fixes/C15-F6.diff always, before outside C15-F6 *)
+Theorem C15_query_kept_bytes : forall m names q,
+  qf1 m = true -> (qf6 m = true \/
+    (negb (is_nil names) && negb (is_empty q) && negb (snd (parse_query q)) &&
+     negb (String.eqb (values_encode (del_all names (fst (parse_query q)))) (kept_settings names q))) = false) ->
+  query_clause names q (remove_from_q m names q) = true.
+Proof. exact query_clause_holds. Qed.
+Print Assumptions C15_query_kept_bytes.
+
+(** ParseQuery (Values.Encode m) gives back m, key by key, without error *)
+Theorem C15_parse_encode_roundtrip : forall m, NoDup (map fst m) ->
+  snd (parse_query (values_encode m)) = false /\
+  forall k, values_get k (fst (parse_query (values_encode m))) = values_get k m.
+Proof. exact parse_encode. Qed.
+Print Assumptions C15_parse_encode_roundtrip.
+
+(** every field the upstream sees is, name by name, [expected_values] (Spec.v):
+    what heimdall hands over plus two habits of Go's HTTP client *)
+Theorem C15_headers_name_by_name : forall fx q pl r tls m uri host hs body k,
+  serve fx q pl r = Forwarded tls m uri host hs body -> k <> "Host" ->
+  h_values k hs = expected_values (fx_c13f3 fx) (fx_f4 fx) (fx_f7 fx) q pl m k.
+Proof. exact serve_headers. Qed.
+Print Assumptions C15_headers_name_by_name.
+
+(** the values the pipeline produced under a name spelling [k] in any casing —
+    empty values included — replace whatever the client sent under a name spelling
+    [k] in any casing: heimdall hands its HTTP client exactly these.  In the
+    repaired tree ([fx_f4 fx = true]) for every name, before that for every name
+    but the forwarding headers (C15-F4) *)
+Theorem C15_pipeline_header_wins : forall fx q pl th k,
+  let vs := pipeline_values (fx_c13f3 fx) (p_headers pl) k in
+  vs <> [] -> k <> "Host" -> (k = "Cookie" -> p_cookies pl = []) ->
+  fx_f4 fx = true \/ forwarding_value (fx_f7 fx) q k = None ->
+  h_values k (snd (rewrite_request fx q pl th)) = vs.
+Proof. exact pipeline_header_wins. Qed.
+Print Assumptions C15_pipeline_header_wins.
+
+(** ... and the upstream sees exactly these *)
+Theorem C15_pipeline_header_on_the_wire : forall fx q pl r tls m uri host hs body k,
+  serve fx q pl r = Forwarded tls m uri host hs body ->
+  let vs := pipeline_values (fx_c13f3 fx) (p_headers pl) k in
+  vs <> [] -> k <> "Host" -> k <> "User-Agent" -> k <> "Accept-Encoding" -> (k = "Cookie" -> p_cookies pl = []) ->
+  fx_f4 fx = true \/ forwarding_value (fx_f7 fx) q k = None ->
+  h_values k hs = vs.
+Proof. exact pipeline_header_on_the_wire. Qed.
+Print Assumptions C15_pipeline_header_on_the_wire.
+
+Theorem C15_pipeline_host_wins : forall fx q pl r tls m uri host hs body v,
+  serve fx q pl r = Forwarded tls m uri host hs body ->
+  pipeline_value (p_headers pl) "Host" = Some v -> v <> "" -> host = v.
+Proof. exact pipeline_host_wins. Qed.
+Print Assumptions C15_pipeline_host_wins.
+
+Theorem C15_no_forwarded_passthrough : forall fx q pl r tls m uri host hs body k,
+  serve fx q pl r = Forwarded tls m uri host hs body ->
+  never_passed k = true -> pipeline_value (p_headers pl) k = None ->
+  h_values k hs = [].
+Proof. exact no_forwarded_passthrough. Qed.
+Print Assumptions C15_no_forwarded_passthrough.
+
+(** whichever of X-Forwarded-For / Forwarded carries this request's forwarding
+    information is the received chain ([chain]: all field lines with
+    fixes/C15-F7.diff, the first line before) extended by the peer; the
+    connection's own scheme (TLS or not) is what `proto=` says *)
+Theorem C15_forwarded_extended_by_peer : forall fx q pl r tls m uri host hs body,
+  serve fx q pl r = Forwarded tls m uri host hs body ->
+  let hin := in_headers q in
+  let al := fx_f7 fx in
+  let k := if forwarding_active al hin then "X-Forwarded-For" else "Forwarded" in
+  fx_f4 fx = false \/ pipeline_values (fx_c13f3 fx) (p_headers pl) k = [] ->
+  if forwarding_active al hin
+  then h_values "X-Forwarded-For" hs = [append_peer (chain al "X-Forwarded-For" hin) (q_peer q)]
+  else h_values "Forwarded" hs =
+       [append_peer (chain al "Forwarded" hin) ("for=" ++ q_peer q ++ ";host=" ++ q_host q ++ ";proto=" ++ conn_proto q)].
+Proof. exact forwarded_extended_by_peer. Qed.
+Print Assumptions C15_forwarded_extended_by_peer.
+
+(** field names in any casing: spellings that differ only in ASCII case name the same header *)
+Theorem C15_header_names_any_casing : forall n n',
+  all_chars is_tchar n = true -> fold_eq n n' = true -> canon_key n = canon_key n'.
+Proof. exact canon_key_any_casing. Qed.
+Print Assumptions C15_header_names_any_casing.
+
+(** THE WHOLE STATEMENT: for a tree with the repairs that are in /repo (and
+    possibly those of C15-F6 / -F7), every request (any bytes), every pipeline
+    output and every rule / rewrite configuration on which none of the open
+    findings shows: what is forwarded (or that nothing is) satisfies every
+    sentence of the property ([spec_ok], C15/Spec.v — a predicate on the
+    observation that does not mention the model) *)
+Theorem C15_spec_holds : forall fx q pl r,
+  fx_c08f2 fx = true -> fx_c13f3 fx = true -> fx_f1 fx = true -> fx_f4 fx = true ->
   oracle_ok q = true ->
   guard_F2 q = false -> guard_F3 q r = false -> guard_F5 r = false ->
-  spec_ok q pl r (serve repaired q pl r) = true.
+  fx_f6 fx = true \/ guard_F6 q r = false ->
+  fx_f7 fx = true \/ guard_F7 q = false ->
+  guard_F8 pl r = false ->
+  spec_ok q pl r (serve fx q pl r) = true.
 Proof. exact spec_holds. Qed.
 Print Assumptions C15_spec_holds.
 
@@ -204,36 +210,60 @@ Theorem C15_F4_pinned_refuted : exists q pl r,
 Proof. exact F4_pinned_refuted. Qed.
 Print Assumptions C15_F4_pinned_refuted.
 
-(** the open findings, each with its witness *)
+(** the open findings, each with its witness (F6, F7: also what the repair candidate gives) *)
 Theorem C15_F2_refuted : exists q pl r,
-  guard_F2 q = true /\ spec_ok q pl r (serve repaired q pl r) = false /\
-  q_method q = "PROPFIND" /\ forwarded_method (serve repaired q pl r) = "GET".
+  guard_F2 q = true /\ spec_ok q pl r (serve repaired2 q pl r) = false /\
+  q_method q = "PROPFIND" /\ forwarded_method (serve repaired2 q pl r) = "GET".
 Proof. exact F2_refuted. Qed.
 Print Assumptions C15_F2_refuted.
 
 Theorem C15_F3_refuted : exists q pl r,
-  guard_F3 q r = true /\ spec_ok q pl r (serve repaired q pl r) = false /\
-  forwarded_uri (serve repaired q pl r) = "/0%20/;users".
+  guard_F3 q r = true /\ spec_ok q pl r (serve repaired2 q pl r) = false /\
+  forwarded_uri (serve repaired2 q pl r) = "/0%20/;users".
 Proof. exact F3_refuted. Qed.
 Print Assumptions C15_F3_refuted.
 
 Theorem C15_F5_refuted :
-  (exists q pl r, guard_F5 r = true /\ spec_ok q pl r (serve repaired q pl r) = false /\
-                  forwarded_uri (serve repaired q pl r) = "/a%20b/x;y") /\
-  (exists q pl r, guard_F5 r = true /\ spec_ok q pl r (serve repaired q pl r) = false /\
-                  forwarded_uri (serve repaired q pl r) = "/").
+  (exists q pl r, guard_F5 r = true /\ spec_ok q pl r (serve repaired2 q pl r) = false /\
+                  forwarded_uri (serve repaired2 q pl r) = "/a%20b/x;y") /\
+  (exists q pl r, guard_F5 r = true /\ spec_ok q pl r (serve repaired2 q pl r) = false /\
+                  forwarded_uri (serve repaired2 q pl r) = "/").
 Proof. exact F5_refuted. Qed.
 Print Assumptions C15_F5_refuted.
 
-(** the hypotheses are satisfiable by a request that exercises every sentence *)
+Theorem C15_F6_refuted : exists q pl r,
+  guard_F6 q r = true /\ spec_ok q pl r (serve repaired q pl r) = false /\
+  forwarded_uri (serve repaired q pl r) = "/x?a=~&b=1" /\
+  spec_ok q pl r (serve repaired2 q pl r) = true /\ forwarded_uri (serve repaired2 q pl r) = "/x?b=1&a=%7E".
+Proof. exact F6_refuted. Qed.
+Print Assumptions C15_F6_refuted.
+
+Theorem C15_F7_refuted : exists q pl r,
+  guard_F7 q = true /\ spec_ok q pl r (serve repaired q pl r) = false /\
+  forwarded_field "X-Forwarded-For" (serve repaired q pl r) = ["10.0.0.1, 127.0.0.2"] /\
+  spec_ok q pl r (serve repaired2 q pl r) = true /\
+  forwarded_field "X-Forwarded-For" (serve repaired2 q pl r) = ["10.0.0.1, 10.0.0.2, 127.0.0.2"].
+Proof. exact F7_refuted. Qed.
+Print Assumptions C15_F7_refuted.
+
+(** C15-F8 is outside the model; the witness is an observation of the assembled application *)
+Theorem C15_F8_observed_refuted : exists q pl r o,
+  guard_F8 pl r = true /\ spec_ok q pl r o = false /\
+  line_values "Traceparent" (p_headers pl) = ["from-pipeline"] /\
+  forwarded_field "Traceparent" o = ["00-0af7651916cd43dd8448eb211c80319c-d2ed1e541ae0a01b-01"].
+Proof. exact F8_observed_refuted. Qed.
+Print Assumptions C15_F8_observed_refuted.
+
+(** the hypotheses of C15_spec_holds are satisfiable by a request that exercises every sentence *)
 Theorem C15_nonvacuous :
   oracle_ok nv_req = true /\
   guard_F2 nv_req = false /\ guard_F3 nv_req nv_rule = false /\ guard_F5 nv_rule = false /\
+  guard_F6 nv_req nv_rule = false /\ guard_F7 nv_req = false /\ guard_F8 nv_pl nv_rule = false /\
   serve repaired nv_req nv_pl nv_rule =
-    Forwarded false "POST" "/up/v1%2Fx/%3Bq%41?b=%2F&c=" "up:8080"
+    Forwarded true "POST" "/up/v1%2Fx/%3Bq%41?b=%2F&c=" "up:8080"
       [("Accept", ["*/*"]); ("Accept-Encoding", ["gzip"]); ("Authorization", ["Bearer t"]);
-       ("Cookie", ["c=1; sid=1"]); ("Forwarded", ["for=127.0.0.9;host=h.example.com;proto=http"]);
-       ("X-User", ["alice"; "second"])] "{""a"":1}" /\
+       ("Cookie", ["c=1; sid=1"]); ("Forwarded", ["for=127.0.0.9;host=h.example.com;proto=https"]);
+       ("X-Role", [""]); ("X-User", ["alice"; "second"])] "{""a"":1}" /\
   spec_ok nv_req nv_pl nv_rule (serve repaired nv_req nv_pl nv_rule) = true.
 Proof. exact nonvacuous. Qed.
 Print Assumptions C15_nonvacuous.
